@@ -150,8 +150,10 @@ func normalizeRetryAfter(
 	switch retryAfterType {
 
 	case sharedConfig.RetryAfterAbsoluteEpoch:
-		now := clock.Now().Unix()
-		return retryAfterNum - float64(now), nil
+		// sub-second precision: truncating now to whole seconds kept the response for up
+		// to a second beyond the provider's retry-after time
+		now := float64(clock.Now().UnixNano()) / float64(time.Second)
+		return retryAfterNum - now, nil
 
 	case sharedConfig.RetryAfterRelativeSeconds:
 		return retryAfterNum, nil
